@@ -2165,7 +2165,7 @@ func checkGoalBoundary(r *Run) {
 			def = &sites[i]
 		}
 	}
-	if def == nil || len(sites) < 3 {
+	if def == nil || len(sites) < 2 {
 		fail("C14.goal: goal comparisons not recognised (%d sites, fund handler %v)", len(sites), def != nil)
 	}
 	for _, s := range sites {
@@ -2252,4 +2252,315 @@ func checkFundTotalRead(r *Run) {
 	if n < 1 {
 		fail("C14.total: no maintained fund record recognised")
 	}
+}
+
+// ---- C16.accesslist (change flags) ----------------------------------------------------------------------------------
+//
+// The access-list adders report what they changed (address added, slot added). Every reported change must be journalled
+// with the entry whose revert undoes exactly that change: a flag that is dropped leaves the addition in place after a
+// revert, and the address or slot stays warm (2500 / 2000 gas cheaper than in the reference).
+func checkAccessListFlags(r *Run) {
+	p := r.P
+	kinds := map[string][]string{"(*vm.accessList).AddAddress": {"DeleteAddress"}, "(*vm.accessList).AddSlot": {"DeleteAddress", "DeleteSlot"}}
+	// entry type -> which deleter its revert calls
+	undo := map[string]string{}
+	for fn := range p.Fns {
+		if fn.Name() != "revert" || fn.Signature.Recv() == nil || fnPkg(fn) == nil || fnPkg(fn).Path() != Mod+"/vm" || fn.Blocks == nil {
+			continue
+		}
+		allInstrs(fn, func(ins ssa.Instruction) {
+			switch n := calleeName(ins); n {
+			case "(*vm.accessList).DeleteAddress", "(*vm.accessList).DeleteSlot":
+				undo[tname(fn.Signature.Recv().Type())] = strings.TrimPrefix(n, "(*vm.accessList).")
+			}
+		})
+	}
+	if len(undo) < 2 {
+		fail("C16.accesslist: journal entries undoing access-list changes not recognised (%d)", len(undo))
+	}
+	n := 0
+	for _, fn := range sortedFns(p.Fns) {
+		if fnPkg(fn) == nil || fnPkg(fn).Path() != Mod+"/vm" || fn.Blocks == nil {
+			continue
+		}
+		allInstrs(fn, func(ins ssa.Instruction) {
+			c, ok := ins.(*ssa.Call)
+			if !ok {
+				return
+			}
+			want, isAdder := kinds[calleeName(c)]
+			if !isAdder {
+				return
+			}
+			for k, deleter := range want {
+				n++
+				// the k-th result
+				var flag ssa.Value
+				if len(want) == 1 {
+					flag = c
+				} else {
+					for _, u := range *c.Referrers() {
+						if ex, ok := u.(*ssa.Extract); ok && ex.Index == k {
+							flag = ex
+						}
+					}
+				}
+				okv := false
+				if flag != nil {
+					edges := condEdges(fn, func(cond ssa.Value, _ *ssa.If) int {
+						return boolCond(cond, func(y ssa.Value) bool { return y == flag })
+					})
+					// a journal.append of an entry undone by `deleter`, reachable only through the flag's true edge
+					allInstrs(fn, func(i2 ssa.Instruction) {
+						a, ok := i2.(*ssa.Call)
+						if !ok || calleeName(a) != "(*vm.journal).append" {
+							return
+						}
+						mi, ok := a.Call.Args[1].(*ssa.MakeInterface)
+						if !ok || undo[tname(mi.X.Type())] != deleter {
+							return
+						}
+						if len(edges) > 0 && !reachWithout(fn, edges)[a.Block()] {
+							okv = true
+						}
+					})
+				}
+				what := map[string]string{"DeleteAddress": "address", "DeleteSlot": "slot"}[deleter]
+				r.Check(okv, "C16.accesslist", fname(fn), "a reported "+what+" addition is journalled", "journal.append(entry whose revert calls "+deleter+") behind the adder's change flag",
+					"the "+what+"-added flag of "+calleeName(c)+" at "+p.ipos(c)+" is not turned into a journal entry: after RevertToSnapshot the "+what+" stays in the access list and later accesses are priced warm where the reference prices them cold", p.ipos(c))
+			}
+		})
+	}
+	if n < 3 {
+		fail("C16.accesslist: only %d adder results found", n)
+	}
+}
+
+// ---- C20.name -------------------------------------------------------------------------------------------------------
+//
+// runCreate refuses a name that exists and then stores the new record under the name NewDomain puts into it. The two are
+// the same key only if the name travels unchanged (or is changed the same way) on both routes: the set of non-identity
+// functions applied between the message field and the existence test must equal the set applied between the message field
+// and the stored Name.
+func nameTransforms(v ssa.Value, depth int, out map[string]bool) {
+	if depth > 10 || v == nil {
+		return
+	}
+	switch x := resolveLoad(v).(type) {
+	case *ssa.Call:
+		sc := x.Call.StaticCallee()
+		if sc != nil && inRepo(sc) && sc.Blocks != nil && len(returnsOf(sc)) == 1 && len(returnsOf(sc)[0].Results) == 1 {
+			// identity helper: returns a conversion of one of its parameters
+			rv := resolveConv(returnsOf(sc)[0].Results[0])
+			for k, pa := range sc.Params {
+				if rv == ssa.Value(pa) && k < len(x.Call.Args) {
+					nameTransforms(x.Call.Args[k], depth+1, out)
+					return
+				}
+			}
+		}
+		if _, isB := x.Call.Value.(*ssa.Builtin); !isB {
+			out[calleeName(x)] = true
+		}
+		for _, a := range x.Call.Args {
+			if b, ok := a.Type().Underlying().(*types.Basic); ok && b.Info()&types.IsString != 0 || namedOf(a.Type()) != nil && namedOf(a.Type()).Obj().Name() == "Name" {
+				nameTransforms(a, depth+1, out)
+			}
+		}
+	case *ssa.Convert:
+		nameTransforms(x.X, depth+1, out)
+	case *ssa.ChangeType:
+		nameTransforms(x.X, depth+1, out)
+	case *ssa.Phi:
+		for _, e := range x.Edges {
+			nameTransforms(e, depth+1, out)
+		}
+	case *ssa.BinOp:
+		out["string concatenation"] = true
+	}
+}
+
+func checkDomainNameRoutes(r *Run) {
+	p := r.P
+	rc := p.MustFn("action/ons.runCreate")
+	nd := p.MustFn("data/ons.NewDomain")
+	ex := firstCallIn(rc, "(*data/ons.DomainStore).Exists")
+	mk := firstCallIn(rc, "data/ons.NewDomain")
+	if ex == nil || mk == nil {
+		fail("C20.name: runCreate no longer calls Exists / NewDomain")
+	}
+	checked, stored := map[string]bool{}, map[string]bool{}
+	nameTransforms(ex.Call.Args[1], 0, checked)
+	// the name parameter of NewDomain (the string one)
+	for k, pa := range nd.Params {
+		if pa.Name() == "name" && k < len(mk.Call.Args) {
+			nameTransforms(mk.Call.Args[k], 0, stored)
+		}
+	}
+	found := false
+	allInstrs(nd, func(ins ssa.Instruction) {
+		if st, ok := ins.(*ssa.Store); ok {
+			if fa, ok := st.Addr.(*ssa.FieldAddr); ok && fieldName(fa.X.Type(), fa.Field) == "Name" {
+				found = true
+				nameTransforms(st.Val, 0, stored)
+			}
+		}
+	})
+	if !found {
+		fail("C20.name: NewDomain does not assign Domain.Name")
+	}
+	keys := func(m map[string]bool) string {
+		var ks []string
+		for k := range m {
+			ks = append(ks, k)
+		}
+		sort.Strings(ks)
+		if len(ks) == 0 {
+			return "none"
+		}
+		return strings.Join(ks, ", ")
+	}
+	r.Check(keys(checked) == keys(stored), "C20.name", fname(rc), "the name tested for existence is the name the record is stored under", "same functions applied on both routes (existence test: "+keys(checked)+"; stored name: "+keys(stored)+")",
+		"runCreate tests existence of the name after applying ["+keys(checked)+"] but the record is stored under the name after applying ["+keys(stored)+"]: two submitted names that differ only by that transformation pass the test and overwrite each other's record (owner, beneficiary, expiry)", p.ipos(ex))
+}
+
+// ---- C20.price ------------------------------------------------------------------------------------------------------
+//
+// A raw big.Int subtraction in a handler package produces a count or an amount only if the minuend is at least the
+// subtrahend: the subtraction must be reachable only past an ordering test on the very same two operands (a.Cmp(b) < 0
+// leads to the error return). A test against another operand (the per-block price instead of the base price) lets a
+// negative difference through — a negative number of blocks, an expiry in the past.
+func checkGuardedSub(r *Run, rule string, pkgSuffix string, floor int) {
+	p := r.P
+	n := 0
+	operand := func(v ssa.Value) ssa.Value {
+		// x.BigInt() -> x
+		if c, ok := v.(*ssa.Call); ok && strings.HasSuffix(calleeName(c), ".BigInt") && len(c.Call.Args) == 1 {
+			return c.Call.Args[0]
+		}
+		return v
+	}
+	for _, fn := range sortedFns(p.Fns) {
+		if pk := fnPkg(fn); pk == nil || !strings.HasSuffix(pk.Path(), pkgSuffix) || fn.Blocks == nil {
+			continue
+		}
+		allInstrs(fn, func(ins ssa.Instruction) {
+			c, ok := ins.(*ssa.Call)
+			if !ok || calleeName(c) != "(*math/big.Int).Sub" {
+				return
+			}
+			n++
+			a, b := operand(c.Call.Args[1]), operand(c.Call.Args[2])
+			edges := condEdges(fn, func(cond ssa.Value, _ *ssa.If) int {
+				v, flip := stripNot(cond)
+				bo, ok := v.(*ssa.BinOp)
+				if !ok {
+					return 0
+				}
+				cmp, isCmp := bo.X.(*ssa.Call)
+				k, isK := intConst(bo.Y)
+				if !isCmp || !isK || calleeName(cmp) != "(*math/big.Int).Cmp" {
+					return 0
+				}
+				x, y := operand(cmp.Call.Args[0]), operand(cmp.Call.Args[1])
+				pol := 0
+				switch {
+				case samePath(x, a) && samePath(y, b): // a.Cmp(b)
+					switch {
+					case bo.Op == token.LSS && k == 0, bo.Op == token.EQL && k == -1:
+						pol = -1 // a < b on the true edge: pass edge is the false one
+					case bo.Op == token.GEQ && k == 0, bo.Op == token.NEQ && k == -1, bo.Op == token.GTR && k == -1:
+						pol = +1
+					}
+				case samePath(x, b) && samePath(y, a): // b.Cmp(a)
+					switch {
+					case bo.Op == token.GTR && k == 0, bo.Op == token.EQL && k == 1:
+						pol = -1
+					case bo.Op == token.LEQ && k == 0, bo.Op == token.NEQ && k == 1, bo.Op == token.LSS && k == 1:
+						pol = +1
+					}
+				}
+				if flip {
+					pol = -pol
+				}
+				return pol
+			})
+			okv := len(edges) > 0 && !reachWithout(fn, edges)[c.Block()]
+			r.Check(okv, rule, fname(fn), "a subtraction is reachable only when its minuend is at least its subtrahend", "a.Cmp(b) < 0 leads away from a.Sub(b), tested on the same two operands",
+				"the subtraction at "+p.ipos(c)+" is not guarded by an ordering test on its own two operands: when the first is smaller the difference is negative, and the number of blocks / amount derived from it is negative too (an expiry before the purchase, a negative credit)", p.ipos(c))
+		})
+	}
+	if n < floor {
+		fail("%s: only %d raw subtractions found in %s", rule, n, pkgSuffix)
+	}
+}
+
+// ---- C17.gas (refund order) / C17.ledger (full-width balance tests) -------------------------------------------------
+func checkRefundOrder(r *Run) {
+	p := r.P
+	fn := p.MustFn("(*vm.StateTransition).refundGas")
+	isGas := func(addr ssa.Value) bool {
+		fa, ok := addr.(*ssa.FieldAddr)
+		return ok && fieldName(fa.X.Type(), fa.Field) == "gas"
+	}
+	var bump *ssa.Store
+	allInstrs(fn, func(ins ssa.Instruction) {
+		if st, ok := ins.(*ssa.Store); ok && isGas(st.Addr) {
+			if bo, isB := st.Val.(*ssa.BinOp); isB && bo.Op == token.ADD {
+				bump = st
+			}
+		}
+	})
+	var pay ssa.CallInstruction
+	allInstrs(fn, func(ins ssa.Instruction) {
+		if c, ok := ins.(ssa.CallInstruction); ok && c.Common().IsInvoke() && c.Common().Method.Name() == "AddBalance" {
+			pay = c
+		}
+	})
+	okv := bump != nil && pay != nil
+	how := "the refund addition to st.gas or the pay-back call was not found"
+	if okv {
+		// every load of st.gas that feeds the paid amount comes after the refund was added
+		n := 0
+		derivesFrom(pay.Common().Args[1], func(y ssa.Value) bool {
+			if ld, ok := y.(*ssa.UnOp); ok && ld.Op == token.MUL && isGas(ld.X) {
+				n++
+				if !dominatesInstr(bump, ld) {
+					okv, how = false, "the amount paid back at "+p.ipos(pay)+" is computed from st.gas as read at "+p.ipos(ld)+", before the refund is added at "+p.ipos(bump)
+				}
+			}
+			return false
+		})
+		if n == 0 {
+			okv, how = false, "the amount paid back does not derive from st.gas"
+		}
+	}
+	r.Check(okv, "C17.gas", fname(fn), "the sender is paid back for the remaining gas including the refund", "st.gas += refund precedes the read of st.gas that prices the pay-back",
+		"refundGas: "+how+": UsedGas (and the fee-pool credit) count the refund as unused while the sender is not paid for it, so refund * price coins vanish from the ledger for every transaction that clears storage", p.pos(fn.Pos()))
+}
+
+func checkLedgerFullWidth(r *Run) {
+	p := r.P
+	n := 0
+	for _, fn := range sortedFns(p.Fns) {
+		if fnPkg(fn) == nil || fnPkg(fn).Path() != Mod+"/data/balance" || fn.Blocks == nil || fn.Signature.Recv() == nil {
+			continue
+		}
+		rt := tname(derefT(fn.Signature.Recv().Type()))
+		if !strings.HasSuffix(rt, "NesterAccountKeeper") && !strings.HasSuffix(rt, "EthAccount") {
+			continue
+		}
+		n++
+		allInstrs(fn, func(ins ssa.Instruction) {
+			switch cn := calleeName(ins); cn {
+			case "(*math/big.Int).Int64", "(*math/big.Int).Uint64":
+				r.Viol("C17.ledger", fname(fn), "call "+strings.TrimPrefix(cn, "(*math/big.Int)."),
+					"the account keeper narrows a balance to 64 bits at "+p.ipos(ins)+": a balance that is a multiple of 2^64 units reads as zero (or as another figure) on the EVM side while the native ledger holds the full amount", p.ipos(ins), nil)
+			}
+		})
+	}
+	if n < 8 {
+		fail("C17.ledger: only %d keeper/account methods scanned", n)
+	}
+	r.OK("C17.ledger", "", itoa(int64(n))+" keeper/account methods", "no 64-bit narrowing of a balance (Int64 / Uint64): zero and ordering tests use the full number")
 }
